@@ -200,7 +200,7 @@ func featureRules() []featureRule {
 		{family: "stamps", tag: "ocprops", match: and(generic, nameHas("Watermarks"))},
 		{family: "stamps/update-remove", tag: "ocprops", match: func(op opcat.Op) bool { return op.Input == opcat.FxWM }, derive: "wm"},
 		{family: "viewer", tag: "viewer", match: and(pdfInput, nameHas("ViewerPreferences", "PageLayout", "PageMode"))},
-		{family: "pages/pagelabels", tag: "pagelabels", match: and(generic, pageOps)},
+		{family: "pages/pagelabels", tag: "pagelabels", match: and(generic, nameHas("RemovePagesFile", "InsertPagesFile", "CollectFile", "TrimFile", "SplitFile"))},
 		{family: "form", tag: "form", match: func(op opcat.Op) bool {
 			return op.Name == "LockFormFieldsFile" || op.Name == "UnlockFormFieldsFile" || op.Name == "ResetFormFieldsFile"
 		}},
